@@ -101,7 +101,14 @@ func (ex *Exec) truncRemX(a, b Term) Term {
 
 // abstractArith: fresh value constrained only by sign/zero (sound over-approximation of Mul/Quo).
 func (ex *Exec) abstractArith(x, y Term) Term {
-	r := ex.aux("h")
+	return ex.abstractArithK("absop", x, y)
+}
+
+// abstractArithK: an uninterpreted FUNCTION of the operands (so that two executions on equal operands agree),
+// constrained only by sign and zero-ness.
+func (ex *Exec) abstractArithK(kind string, x, y Term) Term {
+	x, y = ex.nameT(x), ex.nameT(y)
+	r := ex.nameT(ex.ufApp(kind, false, x, y))
 	nonneg := Or(And(Ge(x, IntC(0)), Ge(y, IntC(0))), And(Le(x, IntC(0)), Le(y, IntC(0))))
 	ex.assume(Ite(nonneg, Ge(r, IntC(0)), Le(r, IntC(0))))
 	ex.assume(Or(Not(Eq(x, IntC(0))), Eq(r, IntC(0))))
@@ -244,7 +251,7 @@ func init() {
 		m[ld+"Mul"] = func(ex *Exec, fr *frame, cc *ssa.CallCommon, a []Value) Value {
 			x, y := ti(a[0]), ti(a[1])
 			if ex.cfg.Abstract && !x.Const && !y.Const {
-				return VInt{ex.abstractArith(x, y)}
+				return VInt{ex.abstractArithK("absmul", x, y)}
 			}
 			return VInt{ex.chopRoundX(Mul(x, y))}
 		}
@@ -257,7 +264,7 @@ func init() {
 			x, d := ti(a[0]), ti(a[1])
 			ex.nonzeroOrPanic(d, "division by zero")
 			if ex.cfg.Abstract && !d.Const {
-				return VInt{ex.abstractArith(x, d)}
+				return VInt{ex.abstractArithK("absquo", x, d)}
 			}
 			return VInt{ex.chopRoundX(ex.truncDivX(Mul(x, Mul(P, P)), d))}
 		}
